@@ -978,6 +978,31 @@ def run_git_stream(ctx, nscen, seeds=None):
                 check_lock_content(ctx, gw, l3, case, 'lock-after-move')
                 lock_cases.append((cq.cpair(mterm, wterm, r2term, co2, ctx_tx(tx_of([l3])), cq.copt(cq.clist(obs_locked_terms(l3)))),
                                    {**case, 'step': 'lock-after-move', 'impl_lock': l3}))
+                # ---- the locked commit disappears upstream (history rewritten, force-pushed) and the cache is gone:
+                # every deploy must fail or render exactly the locked commit - repeated attempts included
+                if reftype == 'branch' and l3 is not None:
+                    v3 = dict(v2)
+                    for k_ in list(v3):
+                        if k_[-1] == 'SKILL.md': v3[k_] = v3[k_].replace(b'-v2', b'-v3')
+                    for pth, cn in v3.items(): world.write(os.path.join(gw.work, *pth), cn)
+                    gw.git(['add', '-A'], gw.work); gw.git(['commit', '-q', '--amend', '-m', 'c3 (rewritten)'], gw.work)
+                    c3 = gw.git(['rev-parse', 'HEAD'], gw.work); gw.commits[c3] = dict(v3)
+                    gw.git(['reflog', 'expire', '--expire=now', '--all'], gw.work)
+                    shutil.rmtree(gw.bare); gw.publish()
+                    shutil.rmtree(os.path.join(sb.aphome, 'cache', 'git'), ignore_errors=True)
+                    for attempt in (1, 2, 3):
+                        rc, doc, out, err = sb.cli_json(['deploy', '--apply', '--yes'])
+                        ctx.count('upstream', key=(seed, 'rewritten', attempt), tags=['upstream:rewritten', 'attempt:%d' % attempt, 'ok' if rc == 0 else 'refused'])
+                        for m in mods:
+                            g = m['source'].get('git')
+                            if not g: continue
+                            name = g['subdir'].split('/')[-1] or 'all'
+                            fp = os.path.join(codex_home, 'skills', name, 'SKILL.md')
+                            got = open(fp, 'rb').read() if os.path.exists(fp) else None
+                            want = gw.commits[now].get(tuple(x for x in g['subdir'].split('/') if x) + ('SKILL.md',))
+                            if got is not None and got != want:
+                                viol(ctx, 'after the locked commit %s vanished upstream, deploy attempt %d rendered bytes of another commit for %s' % (now[:12], attempt, m['id']),
+                                     {**case, 'step': 'rewritten', 'attempt': attempt, 'exit': rc, 'deployed': repr(got)[:200]})
         finally:
             sb.close()
     if silent_checked:
